@@ -934,6 +934,107 @@ def signatures(sc, b):
     return sorted(set(sigs))
 
 
+def expected_true_score(sc, A, B, refined):
+    """Line score the unchanged sampling rule gives the correct pair of a limb A→B (network-input coordinates), from
+    the geometry alone: peaks = keypoints snapped to the confidence-map grid (`refined=False`) or the keypoints
+    themselves (`refined=True`), sample cells by `round(point / paf_stride)`, PAF weight `exp(-d^4 / (2 sigma^2))` of
+    the distance of the sampled grid node from the limb, plus the distance penalty.  Used only to keep the
+    coarse-stride / narrow-PAF family inside the region where the property is expected to hold."""
+    cs, ps, sig = sc["cs"], sc["ps"], sc["sigma_p"]
+    nx, ny = -(-sc["Win"] // ps), -(-sc["Hin"] // ps)
+    if refined:
+        PA, PB = A, B
+    else:
+        PA = tuple(math.floor(v / cs + 0.5) * cs for v in A)
+        PB = tuple(math.floor(v / cs + 0.5) * cs for v in B)
+    n = sc["n_points"]
+    tot = 0.0
+    ux, uy = B[0] - A[0], B[1] - A[1]
+    vx, vy = PB[0] - PA[0], PB[1] - PA[1]
+    cosang = (ux * vx + uy * vy) / (math.hypot(ux, uy) * math.hypot(vx, vy))
+    for k in range(n):
+        t = k / (n - 1)
+        x, y = PA[0] + vx * t, PA[1] + vy * t
+        gx = min(max(round(x / ps), 0), nx - 1) * ps
+        gy = min(max(round(y / ps), 0), ny - 1) * ps
+        d = seg_dist((gx, gy), A, B)
+        tot += math.exp(-d ** 4 / (2.0 * sig * sig)) * cosang
+    L = math.hypot(vx, vy)
+    pen = min(max_edge_length(sc) / L - 1.0, 0.0) * sc["weight"]
+    return tot / n + pen
+
+
+def gen_coarse_family(rng):
+    """Coarse PAF stride (8, 16) with PAFs about one PAF cell wide (sigma ∈ {0.75, 1, ~2} x stride; 15 px = the project
+    default at stride 8) and limbs (nearly) parallel to an image axis whose cross-axis coordinate sits just below a
+    PAF grid line (≡ stride-1, stride-0.5), just above one, or near the middle of a cell (≡ stride/2 ± ε) — the sampled
+    grid nodes are then up to half a cell off the limb, and a full cell with any other rounding rule.  2-3 animals in
+    parallel lanes.  Scenes are kept only if the geometry predicts a score ≥ 0.5 for every correct pair (snapped and
+    unsnapped peaks), i.e. inside the region where the unchanged code reassembles."""
+    for _attempt in range(200):
+        ps = rng.choice([8, 8, 16])
+        cs = rng.choice([2, 4])
+        sigma_p = rng.choice([0.75 * ps, float(ps), 15.0 if ps == 8 else 30.0])
+        n_nodes = rng.choice([2, 3])
+        edges = [(0, 1)] if n_nodes == 2 else rng.choice([[(0, 1), (1, 2)], [(1, 2), (0, 1)], [(1, 0), (1, 2)]])
+        horizontal = rng.random() < 0.5
+        n_an = rng.choice([2, 3])
+        lane = 4 * ps if ps == 8 else 3 * ps                  # distance between the lanes of two animals
+        long_cells = rng.randrange(12, 19)
+        across = (n_an + 1) * lane + 2 * ps
+        along = long_cells * ps
+        Win, Hin = (along, across) if horizontal else (across, along)
+        if rng.random() < 0.4:
+            Win += rng.randrange(0, ps); Hin += rng.randrange(0, ps)
+        sc = {"cs": cs, "ps": ps, "n_nodes": n_nodes, "edges": [tuple(e) for e in edges], "Hin": Hin, "Win": Win,
+              "sigma_c": 1.5, "sigma_p": sigma_p, "scale": rng.choice([1.0, 0.5, 2.0]), "effs": [rng.choice([1.0, 0.8])],
+              "refinement": rng.choice([None, "local", "integral"]), "patch": 5, "n_points": rng.choice([10, 10, 7]),
+              "ratio": 0.25, "weight": 1.0, "min_line": 0.25, "min_peaks": 0, "threshold": 0.2}
+        ml = max_edge_length(sc)
+        animals = []
+        ok = True
+        for a in range(n_an):
+            r = rng.choice([ps - 1, ps - 0.5, ps - 1.5, ps / 2 - 0.75, ps / 2 + 0.75, ps / 2 - 1.5, 0.5, 1.0, 0.0])
+            base = (a + 1) * lane + ps + r - ps                # ≡ r (mod ps), one lane per animal
+            pos = rng.uniform(2 * ps, 3 * ps)
+            pts = {}
+            order = [edges[0][0]] + [v for (_, v) in edges] if n_nodes == 2 else None
+            # chain along the long axis: node sequence follows the tree (src before dst where possible)
+            seq = [0, 1] if n_nodes == 2 else ([0, 1, 2] if (0, 1) in edges and (1, 2) in edges else [0, 1, 2])
+            for k, node in enumerate(seq):
+                cross = base + rng.choice([0.0, 0.0, 0.25, -0.25, 0.5, -0.5, 1.0])
+                pts[node] = (pos, cross) if horizontal else (cross, pos)
+                pos += rng.uniform(2.5 * ps, min(1.1 * ml, 4.5 * ps))
+            if pos - 2.5 * ps > along - 2 * ps:
+                ok = False
+                break
+
+            def q(v):
+                f = Fraction(round(v * 4), 4)
+                if (f / cs) % 1 == Fraction(1, 2):
+                    f += Fraction(1, 4)
+                return f
+            animals.append([(q(pts[k][0]), q(pts[k][1])) for k in range(n_nodes)])
+        if not ok:
+            continue
+        sc["frames"] = [animals]
+        good = True
+        for an in animals:
+            for (u, v) in sc["edges"]:
+                A = (float(an[u][0]), float(an[u][1])); B = (float(an[v][0]), float(an[v][1]))
+                if min(expected_true_score(sc, A, B, False), expected_true_score(sc, A, B, True)) < 0.5:
+                    good = False
+                # rounding ties of the snapped peak line are knife edges of the prediction itself
+                for P in (A, B):
+                    for c in P:
+                        for val in (math.floor(c / cs + 0.5) * cs, c):
+                            if abs((val / ps) % 1 - 0.5) < 0.03:
+                                good = False
+        if good:
+            return sc
+    raise RuntimeError("gen_coarse_family: no admissible scene in 200 attempts")
+
+
 def gen_coincident_family(rng):
     """F-C03b region: animal A with its two connected keypoints on the same point (one NaN candidate) next to an
     intact animal B of the same 2-node skeleton."""
@@ -1188,6 +1289,9 @@ def main(chk: Check):
             emp = ["first", "middle", "last", "all", "first", "middle", "last"][(i // 9) % 7] if i % 9 == 7 else None
             sc = gen_scene(rng, big=chk.thorough and i % 5 == 0, crowded=(i % 9 == 4), empty=emp, border_band=(i % 9 == 1),
                            elongated=(i % 9 == 2))
+            if i % 9 == 5:
+                sc = gen_coarse_family(rng)
+                chk.tag("coarse_stride_narrow_paf_scene", f"coarse:sigma_p/ps={sc['sigma_p'] / sc['ps']:.2f}")
             if i % 9 == 2:
                 chk.tag("elongated_scene")
             if i % 9 == 1:
@@ -1216,10 +1320,12 @@ def main(chk: Check):
             handle_failures(chk, c["sc"], fails, stats, "gen")
     if chk.disagreements and not chk.failing:
         # failing-input search: same generator, more scenes, implementation + oracle only
-        for j in range(chk.n(56, 300)):
-            fam = [0, 3, 1, 3, 2, 3, 4][j % 7]          # every scene family of the main loop takes part in the search
+        for j in range(chk.n(60, 300)):
+            fam = [0, 3, 5, 1, 3, 5, 2, 3, 5, 4][j % 10]    # every scene family of the main loop takes part in the search
             sc = gen_scene(rng, crowded=(fam == 1), border_band=(fam == 2), elongated=(fam == 3),
-                           empty=(["first", "middle", "last"][(j // 7) % 3] if fam == 4 else None))
+                           empty=(["first", "middle", "last"][(j // 10) % 3] if fam == 4 else None))
+            if fam == 5:
+                sc = gen_coarse_family(rng)
             if fam == 2:
                 sc["refinement"] = None
             res, _ = run_impl(sc)
